@@ -5,10 +5,32 @@
 #include <igris/util/base64.h>
 using namespace vlog;
 static const int G = 8;
+static void do_call(const std::string &fn, const std::vector<unsigned char> &in);
+// Calls made while the globals of the program are still being constructed (a global object that decodes an embedded blob in its
+// constructor): this translation unit is first on the link line, so its initialisers run before those of the library sources.  The
+// events are held back and written after the first Reset.
+static std::string g_early;
+struct Early { Early() {
+    std::string keep; keep.swap(vlog::g_buf);
+    const char *texts[] = {"", "f", "fo", "foo", "foobar", "\xff\xfe\xfd\x00\x80"}; size_t lens[] = {0, 1, 2, 3, 6, 5};
+    for (int k = 0; k < 6; ++k) { std::vector<unsigned char> in(texts[k], texts[k] + lens[k]);
+        for (const char *fn : {"b64enc_ptr", "b64enc_string", "b64urlenc_ptr", "hexenc_ptr", "hexenc_string", "hexenc_c"}) do_call(fn, in); }
+    const char *enc[] = {"Zm9vYmFy", "Zm9v", "Zg==", "Zm8=", "//79AIA=", "__79AIA="};
+    for (int k = 0; k < 6; ++k) { std::vector<unsigned char> in(enc[k], enc[k] + strlen(enc[k])); do_call(k == 5 ? "b64urldec" : "b64dec", in); }
+    { const char *h = "00FF7F80AB"; std::vector<unsigned char> in(h, h + 10); do_call("hexdec_c", in); }
+    { const char *h = "DEADBEEF01234567"; for (int w = 2; w <= 16; w *= 2) { std::vector<unsigned char> in(h, h + w); do_call(w == 2 ? "hexu8" : w == 4 ? "hexu16" : w == 8 ? "hexu32" : "hexu64", in); } }
+    { unsigned char v[8] = {0xef, 0xcd, 0xab, 0x89, 0x67, 0x45, 0x23, 0x01}; for (int w = 1; w <= 8; w *= 2) { std::vector<unsigned char> in(v, v + w); do_call(w == 1 ? "u8hex" : w == 2 ? "u16hex" : w == 4 ? "u32hex" : "u64hex", in); } }
+    g_early.swap(vlog::g_buf); vlog::g_buf.swap(keep); } };
+static Early g_early_calls;
 int main(int argc, char **argv) {
     return run(argc, argv, [&](const std::vector<std::string> &t) {
-        if (t[0] == "R") { Ev e("Reset"); e.end(); return; }
-        const std::string &fn = t[1]; auto in = blist(t[2]); size_t n = in.size();
+        if (t[0] == "R") { Ev e("Reset"); e.end(); if (!g_early.empty()) { vlog::g_buf += g_early; g_early.clear(); } return; }
+        do_call(t[1], blist(t[2]));
+    });
+}
+static void do_call(const std::string &fn, const std::vector<unsigned char> &in) {
+    {
+        size_t n = in.size();
         // input in an exactly sized heap block (not terminated)
         unsigned char *src = (unsigned char *)malloc(n ? n : 1); memcpy(src, in.data(), n);
         std::vector<unsigned char> out; std::vector<unsigned char> gl, gr; bool guards = false;
@@ -37,5 +59,5 @@ int main(int argc, char **argv) {
         else { fprintf(stderr, "bad fn %s\n", fn.c_str()); exit(3); }
         free(src);
         Ev e("Codec"); e.str("fn", fn.c_str()).bytes("in", in.data(), n).bytes("out", out.data(), out.size()).i("g", guards ? 1 : 0).bytes("gl", gl.data(), gl.size()).bytes("gr", gr.data(), gr.size()); e.end();
-    });
+    }
 }
